@@ -451,6 +451,9 @@ func (e *exec) open(dir string) (*tsdb.DB, *prometheus.Registry, error) {
 	reg := prometheus.NewRegistry()
 	db, err := tsdb.Open(dir, nil, reg, e.buildOpts(), nil)
 	if err != nil {
+		// tsdb.Open does not stop the goroutines it started (log writers, series state ticker) when it fails: every
+		// caller reports the failed open; the runner must not take the leak for a harness deadlock
+		e.res.LeakedGoroutinesExpected = true
 		return nil, nil, err
 	}
 	db.DisableCompactions()
